@@ -131,9 +131,15 @@ func drawFmtBody(t *rapid.T, noisy bool, feat map[string]bool, maxLines int) (ca
 			c := "##!> include " + inc
 			nn := lead() + "##!>" + gap() + "include" + gap() + inc
 			if chance(t, 40, "ipairs") {
-				pr := pick(t, []string{"s t", "s t", "@ %20", "x %2e", `s ""`}, "ipairv")
-				c += " -- " + pr
-				nn += gap() + "--" + gap() + pr
+				pr := pick(t, []string{"s t", "s t", "@ %20", "x %2e", `s ""`, ""}, "ipairv")
+				if pr == "" {
+					// the separator with nothing behind it is kept as it is
+					c += " --"
+					nn += gap() + "--"
+				} else {
+					c += " -- " + pr
+					nn += gap() + "--" + gap() + pr
+				}
 			}
 			emit(ind()+c, nn+trail())
 			feat["include"] = true
